@@ -16,7 +16,7 @@ RULE = ("chain and two-branch topologies giving routes of 1..8 hops between real
         "(NETWORK_ACK frames by originator/PID, reception time at the origin) and the call history "
         "(result, virtual duration). Non-trivial: >=1 frame crossed the air and quiescence was "
         "reached; distinct = (hops, type class, fault plan kind and position, timeouts).")
-RULE += (" Later rounds added: same-header re-sends, foreign frames to relay during the origin's wait (with and without loss), multicast-off nodes, multicasts through relays (no NETWORK_ACK), multicast_level overrides, a frame to relay queued in the origin's RX FIFO just ahead of its NETWORK_ACK, a frame for the origin itself right behind it, a hop that is deaf for a swept time around the sending hop's tx_timeout.")
+RULE += (" Later rounds added: same-header re-sends, foreign frames to relay during the origin's wait (with and without loss), multicast-off nodes, multicasts through relays (no NETWORK_ACK), multicast_level overrides, a frame to relay queued in the origin's RX FIFO just ahead of its NETWORK_ACK, a frame for the origin itself right behind it, a hop that is deaf for a swept time around the sending hop's tx_timeout, origins whose queue is full when they send.")
 REQUIRED = {"result_vs_ack_arrival": 150, "ack_count": 300, "no_ack_for_others": 150,
             "duration_bound": 300}
 BUDGET = {"quick": 480, "thorough": 900}
@@ -145,6 +145,10 @@ def gen_cases(ctx):
                 # and is acknowledged after it still delivered the frame)
                 j = rng2.choice([len(path) - 2, rng2.randrange(len(path) - 1)])
                 ms["plan"] = {"kind": "fwd_outage", "node": path[j], "ms": round(tx_to + rng2.uniform(-3.0, 14.0), 2)}
+            if ms["plan"] is None and "foreign" not in ms and "mc" not in ms and len(path) >= 3 and rng2.random() < 0.15:
+                # the origin's application has not read anything for a while: its queue is full
+                # (six frames) when it sends; nothing is lost on the way
+                ms["qfull"] = rng2.choice([6, 6, 5])
             msgs.append(ms)
             if rng.random() < 0.25:
                 # the application sends the same header object again (same id, same type)
@@ -259,6 +263,12 @@ def _run(ctx, case, net):
             else:
                 h = Hdr(ms["dst"], ms["type"])
             last_hdr[ms["src"]] = h
+            if ms.get("qfull"):
+                for q in range(ms["qfull"]):
+                    nn.radio.inject_rx(1, net_ref.pack_header(ms["dst"], ms["src"], 0x6000 + 8 * k + q, 3, 0) + b"unread")
+                    if q % 3 == 2 or q == ms["qfull"] - 1:
+                        nn.obj.update()
+                ctx.count("origins_sending_with_%d_unread_frames_queued" % len(nn.obj.queue))
             ms["_fid"] = h.frame_id
             active["plan"], active["mid"], active["origin"] = (dict(ms["plan"]) if ms["plan"] else None), h.frame_id, ms["src"]
             active["foreign"] = ms.get("foreign") if h.frame_id != FOREIGN_ID else None
